@@ -43,6 +43,12 @@ ConvFde(r) == LET a == FdeMeaning(r.min)
     /\ Again(r)
     /\ b = a /\ c = b
     /\ ("exp" \in DOMAIN r) => (b.unwind = r.exp.unwind /\ b.fin = "end")
+    (* cases of MCConvertEh also say what the augmentation pointers mean *)
+    /\ ("exp" \in DOMAIN r /\ "pers" \in DOMAIN r.exp) =>
+          /\ b.start = r.exp.start /\ b.len = r.exp.len
+          /\ b.pers = r.exp.pers /\ b.pers_enc = r.exp.pers_enc
+          /\ b.lsda_enc = r.exp.lsda_enc /\ b.lsda = r.exp.lsda
+          /\ b.signal = r.exp.signal
 (* re-targeted conversion (r.tv = target version); the second conversion of  *)
 (* the output is an ordinary one                                             *)
 ConvRetargetUnit(r)  == Again(r) /\ Ok3(RetargetUnitMeaning, r)
